@@ -279,6 +279,83 @@ func enumShapes(full bool, yield func(Case) bool) {
 	}
 }
 
+// ---------------------------------------------------------------- stale scope placements
+
+// enumScope yields chains and truthiness probes evaluated inside a v-for body that follows - as a
+// later sibling or as a later iteration of the same loop - an include of a component with 9..12
+// props, the conditions naming exactly those props. The names are undefined where the chain sits
+// (a component's props end with the include tag), so they are falsy there: the chain takes its
+// v-else (or nothing), the probe is hidden, gets no attribute and no class. The pattern is
+// repeated three times per case (an engine that recycles scope maps need not hand the same map
+// out again the first time).
+func enumScope(yield func(Case) bool) {
+	idx := 0
+	for props := 9; props <= 12; props++ {
+		for _, layout := range []string{"sibling", "iter", "iter-cond", "nested-sibling"} {
+			for nElif := 0; nElif <= 2; nElif++ {
+				for _, hasElse := range []bool{false, true} {
+					for truePos := -1; truePos <= nElif; truePos++ {
+						idx++
+						sep := sepKinds[idx%2] // "" or "w"
+						var body []Node
+						for r := 0; r < 3; r++ {
+							pre := fmt.Sprintf("r%d", r)
+							var chain []Node
+							for k := 0; k <= nElif; k++ {
+								kind := "elif"
+								if k == 0 {
+									kind = "if"
+								}
+								cond := fmt.Sprintf("p%d", props-1-k)
+								if k == truePos {
+									cond = "ca" // the one defined (true) variable
+								}
+								chain = append(chain, Node{Kind: kind, M: fmt.Sprintf("%sm%d", pre, k), Cond: cond, Sep: sep})
+							}
+							if hasElse {
+								chain = append(chain, Node{Kind: "else", M: pre + "me", Sep: sep})
+							}
+							probes := []Node{
+								{Kind: "probe", M: pre + "q0", Cond: fmt.Sprintf("p%d", props-1), Sep: sep},
+								{Kind: "probe", M: pre + "q1", Cond: "p1", Sep: sep},
+							}
+							inc := Node{Kind: "include", M: pre + "c", Props: props, Sep: sep}
+							loop := Node{Kind: "loop", M: pre + "L", Var: "it1", List: "rows", Sep: sep}
+							switch layout {
+							case "sibling": // include, then a loop whose body holds the chain
+								loop.Kids = append(append(loop.Kids, chain...), probes...)
+								body = append(body, inc, loop)
+							case "iter": // the include is the last child of the loop body: later iterations follow it
+								loop.Kids = append(append(append(loop.Kids, chain...), probes...), inc)
+								body = append(body, loop)
+							case "iter-cond": // only the first item includes the component
+								loop.Kids = append(append(loop.Kids, chain...), probes...)
+								loop.Kids = append(loop.Kids, Node{Kind: "if", M: pre + "t", Cond: "it1.inc", Tmpl: true, Sep: sep, Kids: []Node{inc}})
+								body = append(body, loop)
+							case "nested-sibling": // include deeper in an earlier sibling, chain deeper in the loop body
+								loop.Kids = append(loop.Kids, plain(pre+"d", "", chain...))
+								loop.Kids = append(loop.Kids, probes...)
+								body = append(body, plain(pre+"w", sep, inc), plain(pre+"s", sep), loop)
+							}
+						}
+						body[0].Sep = ""
+						c := Case{Nodes: body, Entry: "file",
+							Vars: map[string]vals.V{"ca": vals.Bool(true)},
+							Lists: map[string][]map[string]vals.V{"rows": {
+								{"id": vals.Str("r0"), "inc": vals.Bool(true)},
+								{"id": vals.Str("r1"), "inc": vals.Bool(false)},
+								{"id": vals.Str("r2")},
+							}}}
+						if !yield(c) {
+							return
+						}
+					}
+				}
+			}
+		}
+	}
+}
+
 // ---------------------------------------------------------------- family C (rapid)
 
 // specified values for condition variables: the documented part of the table.
@@ -306,6 +383,10 @@ func (g *nestGen) marker() string {
 func (g *nestGen) sep() string { return rapid.SampledFrom(sepKinds).Draw(g.t, "sep") }
 
 func (g *nestGen) cond(loopVars []string) string {
+	if rapid.IntRange(0, 7).Draw(g.t, "prop") == 0 {
+		// the name of a component prop: undefined wherever the page evaluates it
+		return fmt.Sprintf("p%d", rapid.IntRange(0, 11).Draw(g.t, "pk"))
+	}
 	name := rapid.SampledFrom(condNames[:6]).Draw(g.t, "var")
 	if len(loopVars) > 0 && rapid.IntRange(0, 9).Draw(g.t, "ref") < 6 {
 		name = loopVars[rapid.IntRange(0, len(loopVars)-1).Draw(g.t, "lv")] + "." + name
@@ -378,7 +459,15 @@ func (g *nestGen) siblings(depth int, loopVars []string, lo, hi int) []Node {
 		if len(out) == 0 && depth == 0 {
 			sep = ""
 		}
-		switch k := rapid.IntRange(0, 19).Draw(g.t, "kind"); {
+		switch k := rapid.IntRange(0, 21).Draw(g.t, "kind"); {
+		case k == 20:
+			out = append(out, Node{Kind: "include", M: g.marker(), Sep: sep, Props: rapid.IntRange(7, 12).Draw(g.t, "props")})
+		case k == 21:
+			c := g.cond(loopVars)
+			if c[0] == '!' {
+				c = c[1:] // negation inside bound attributes / class objects is C13's subject
+			}
+			out = append(out, Node{Kind: "probe", M: g.marker(), Sep: sep, Cond: c})
 		case k < 2:
 			out = append(out, Node{Kind: "plain", M: g.marker(), Sep: sep})
 		case k < 5:
